@@ -310,6 +310,9 @@ pub fn universe_calls(typed: bool) -> Vec<Call> {
 }
 
 fn rand_value(r: &mut Rng) -> String {
+    if r.chance(1, 12) {
+        return crate::gen::boundary_string(r, false);
+    }
     match r.below(10) {
         0 => String::new(),
         1..=3 => r.pick(U_VALUES).to_string(),
